@@ -103,6 +103,13 @@ func judge(r *mon.Run, work string, i int, of *echgen.Offer, extra string) bool 
 	return ok
 }
 
+func firstDiffClass(got, want []byte) string {
+	if len(got) != len(want) {
+		return "length"
+	}
+	return "content"
+}
+
 func firstDiff(a, b []byte) int {
 	for i := 0; i < len(a) && i < len(b); i++ {
 		if a[i] != b[i] {
@@ -240,6 +247,54 @@ func TestCheck(t *testing.T) {
 		}
 	})
 
+	// -- encoded inner hellos that still carry a session id: whatever the server makes of them,
+	// a forwarded hello carries the OUTER hello's legacy_session_id --
+	r.Parallel("encsid", r.N(240, 6000), func(i int, rng *mrand.Rand) {
+		k := keys[i%len(keys)]
+		aead := aeads[i%3]
+		o := echgen.DefaultOpts()
+		o.MaxExtra = []int{0, 2, 6}[rng.IntN(3)]
+		inner := echgen.GenInner(rng, o)
+		outer := echgen.GenOuterBase(rng, k.PublicName, nil, []int{0, 0, 1, 31, 32}[i%5])
+		inner.SessionID = append([]byte{}, outer.SessionID...)
+		sid := hellogenBytes(rng, []int{1, 4, 32, 1 + rng.IntN(32)}[rng.IntN(4)])
+		s, err := hpkex.Setup(aead, k.Priv.PublicKey().Bytes(), echgen.Info(k.Config), nil)
+		if err != nil {
+			r.Inconclusive("hpke setup: %v", err)
+			return
+		}
+		echgen.SealInto(outer, -1, s, aead, k.ID, s.Enc, echgen.EncodeInnerSID(inner, 0, 0, rng.IntN(20), sid))
+		c := map[string]any{"outer_session_id": mon.Hex(outer.SessionID), "encoded_inner_session_id": mon.Hex(sid), "aead": aead}
+		r.Guard("encsid", i, "reconstruct", c, func() {
+			out := echrun.Run(outer.HelloRecord(0x0301), []ech.Key{k.TLSKey()})
+			if out.Err != nil || !out.Accepted {
+				r.Count("encsid_refused_or_passed_through", 1)
+				r.Eval(fmt.Sprintf("encsid|refused|%d|%d", len(outer.SessionID), len(sid)))
+				return
+			}
+			if out.FirstErr != nil || len(out.First) < 5 {
+				r.Violate("encsid", i, "reconstruct:no-record", fmt.Sprintf("no complete first record: %v", out.FirstErr), c)
+				return
+			}
+			h, err := tlswire.ParseClientHelloMessage(out.First[5:])
+			if err != nil {
+				r.Violate("encsid", i, "reconstruct:bytes-differ:unparseable", "forwarded hello does not parse: "+err.Error(), c)
+				return
+			}
+			if !bytes.Equal(h.SessionID, outer.SessionID) {
+				c["forwarded_session_id"] = mon.Hex(h.SessionID)
+				r.Violate("encsid", i, "reconstruct:session-id-not-the-outers", fmt.Sprintf("accepted hello forwarded with legacy_session_id %x, the outer hello's is %x (the encoded inner carried %x)", h.SessionID, outer.SessionID, sid), c)
+				return
+			}
+			if want := inner.Message(); !bytes.Equal(out.First[5:], want) {
+				r.Violate("encsid", i, "reconstruct:bytes-differ:"+firstDiffClass(out.First[5:], want), "forwarded hello differs from ClientHelloInner with the outer session id", c)
+				return
+			}
+			r.Count("encsid_substituted", 1)
+			r.Eval(fmt.Sprintf("encsid|substituted|%d|%d", len(outer.SessionID), len(sid)))
+		})
+	})
+
 	// -- sizes up to the record limit --
 	nBig := r.N(120, 4000)
 	r.Parallel("large", nBig, func(i int, rng *mrand.Rand) {
@@ -257,7 +312,7 @@ func TestCheck(t *testing.T) {
 		outer := echgen.GenOuterBase(rng, k.PublicName, nil, 32)
 		inner.SessionID = append([]byte{}, outer.SessionID...)
 		base := len(outer.HelloRecord(0x0301)) - 5 + len(echgen.EncodeInner(inner, 0, 0, 0)) + 16 + 4 + 10 // ECH ext header+fields
-		grow := target - base - 32                                                                            // enc
+		grow := target - base - 32                                                                         // enc
 		if grow < 0 {
 			grow = 0
 		}
